@@ -24,7 +24,7 @@ import time
 from fractions import Fraction
 from pathlib import Path
 
-from harness.core import REPO, VERIF, Ctx, cbool, clist, cnat, copt, cq, cz, guarded
+from harness.core import COQ, REPO, VERIF, Ctx, cbool, clist, cnat, copt, cq, cz, guarded
 
 ID = "C12"
 ANCHORS = [
@@ -1033,6 +1033,7 @@ def run(ctx: Ctx):
                 "non-trivial = at least 2 edges and (for target queries) a reachable target or (otherwise) a result with more than one finite entry; "
                 "distinct = canonical JSON of the call")
     ctx.proof_step(["C12"])
+    if (COQ / "Props" / "C12_deep.v").exists(): ctx.proof_step(["C12"], props_file="Props/C12_deep.v")
     info = setup(ctx.notes)
     ctx.extra["extension"] = info
     ctx.count("extension_mode", info.get("mode"))
